@@ -1,0 +1,22 @@
+//go:build verif
+
+// Site annotations for the protocol layer (layer P) of the verifier in /verif: declared
+// exceptions and assumptions for individual observable-constructor sites. Comments only.
+// Every `assume-*` and `*-exempt` line is listed among the assumptions of the evidence.
+
+package ro
+
+//@ site ContextReset
+//@   ctx-exempt next error complete : ContextReset is the declared exception of the context-flow rule - it replaces the context by the one supplied to the operator (made non-nil by its constructor)
+
+//@ site MergeAll
+//@   assume-ctx-set onDone : parentCtx is written by the outer completion callback before the counter can reach zero (the counter starts at 1 for the outer source); to be replaced by the machine contract of MergeAll
+
+//@ site OnErrorResumeNextWith
+//@   assume-ctx-set subscribe : lastCtx is written by the terminal callback of every attempt; Wait() only returns after that callback for a source that honours the Observable contract
+
+//@ site RepeatWith
+//@   assume-ctx-set subscribe : lastCtx is written by the completion callback of every attempt; if an attempt errors the destination is closed and the final Complete is dropped by the gate
+
+//@ site SampleWhen
+//@   assume-ctx-set next@tick : `last` is read only when hasValue is set, and both are written together under mu by the source callback
